@@ -17,7 +17,8 @@ def read(p):
 
 def theorems(pid):
     out = []
-    mods = ['Mistral/Props/%s.lean' % pid]
+    _, _, lm = prop_meta(pid)
+    mods = [m.replace('.', '/') + '.lean' for m in (lm or ['Mistral.Props.%s' % pid])]
     for m in mods:
         try:
             src = read('lean/' + m)
@@ -68,7 +69,8 @@ def main():
         parts.append('### %s — %s\n\n' % (pid, p['title']))
         parts.append('**Technique.** %s\n\n' % meta.get('technique', ''))
         parts.append('**What the check establishes.** %s\n\n' % meta.get('text', ''))
-        parts.append('**Theorems (%d, `Mistral.Props.%s`).** %s\n\n' % (len(th), pid, ', '.join('`%s`' % t for t in th)))
+        parts.append('**Theorems (%d, %s).** %s\n\n' % (len(th), ', '.join('`%s`' % m for m in (mods or ['Mistral.Props.' + pid])),
+                                                     ', '.join('`%s`' % t for t in th)))
         parts.append('**Streams / non-triviality rule.** %s\n\n' % rule)
         parts.append('**Assumed / modelled, not verified.** %s\n\n' % meta.get('note', ''))
         if os.path.exists(os.path.join(V, 'docs', pid + '.md')):
